@@ -260,6 +260,7 @@ type Exec struct {
 	simVariant string
 	simLimit   int64
 	simFast    bool
+	simNum     bool
 	relMode    bool
 	allocMode  bool
 	sharedTables map[string]bool
@@ -577,7 +578,7 @@ func (ex *Exec) execInstr(st *State, ins ssa.Instruction) []*State {
 	case *ssa.Alloc:
 		st.store[i] = ex.zeroValue(st, i.Type().(*types.Pointer).Elem())
 		st.regs[i] = &PtrV{Nil: False, P: Place{Root: i}, T: i.Type().(*types.Pointer).Elem()}
-		if i.Heap {
+		if i.Heap && !allocStaysLocal(i) {
 			ex.allocEvent(st, "new", I64(sizeofType(i.Type().(*types.Pointer).Elem())), i.Pos())
 		}
 	case *ssa.Store:
